@@ -58,6 +58,38 @@ def run_large(case):
     x = fml.V(rng.choice(sig))
     qs.append((fml.Or(x, fml.Not(x)), fml.And(A, fml.Not(B))))  # consequent valid, antecedent exceptional
     op = impl.results(impl.ask(impl.mk_bb(sig, conds), 'system-z', '', impl.mk_queries(qs)))
+    # the definition on a base of this size: satisfiability-based reference (vf/bigref.py)
+    from .. import bigref
+    try:
+        S = bigref.BigSetup(bigref.BigBase(sig, conds), False)
+        if S.ok:
+            for _ in range(24):
+                w = ''.join(rng.choice('01') for _ in sig)
+                if rng.random() < 0.5:
+                    # a world near a rule's falsification: flip towards A & !B of a random rule
+                    wd = S.base.solve([S.base.fal[rng.randrange(len(conds))]])
+                    if wd is not None:
+                        w = ''.join('1' if wd[a] else '0' for a in sig)
+                exp_r = S.zrank_world({a: c == '1' for a, c in zip(sig, w)})
+                got_r = o.rank_world(w)
+                res['evals'] += 1
+                res['counters']['large_world_ranks_judged_by_definition'] = res['counters'].get('large_world_ranks_judged_by_definition', 0) + 1
+                if got_r != exp_r:
+                    res['violations'].append({'sig': 'zocf:rank-differs:more-than-10-atoms',
+                                              'detail': {'base': bdesc, 'world': w, 'got': got_r, 'expected': exp_r,
+                                                         'layers': [len(l) for l in S.part]}})
+                    break
+            for qi, (B, A) in enumerate(qs):
+                if not S.feasible(A):
+                    continue
+                ref = S.answer('system-z', B, A)
+                res['evals'] += 1
+                res['counters']['large_acceptance_judged_by_definition'] = res['counters'].get('large_acceptance_judged_by_definition', 0) + 1
+                if op[qi] != ref:
+                    res['violations'].append({'sig': 'zocf:operator-differs-from-definition:more-than-10-atoms',
+                                              'detail': {'base': bdesc, 'query': fml.cond_text(B, A), 'operator': op[qi], 'definition': ref}})
+    except bigref.OracleError as e:
+        res['inconclusive'].append('large-base oracle: %s' % e)
     for qi, (B, A) in enumerate(qs):
         if not fml.tt(A, sig):
             continue            # antecedent without model: outside the statement (acceptance is defined as False)
@@ -216,6 +248,17 @@ def run_case(case):
             if not (t >> w) & 1 and seen[worlds[w]] != top:
                 viol('fact-violating-world-not-top-rank', world=worlds[w], got=seen[worlds[w]], top=top)
                 break
+
+    # ---- calls that FAIL (bad argument) must leave the objects as they were: everything below is asked afterwards
+    if rng.random() < 0.3:
+        from pysmt.shortcuts import Int as _Int
+        for ob in (o2, o3):
+            for arg in rng.sample([None, 'p,!f', _Int(3)], 2):
+                try:
+                    ob.formula_rank(arg)
+                    bump('bad_argument_calls_that_returned')
+                except Exception:
+                    bump('failed_calls_injected')
 
     # ---- base conditionals outside the infinity layer are accepted
     for i, (B, A) in enumerate(conds):
